@@ -1,7 +1,7 @@
 (* C13 — superpose(): one rigid motion of the whole structure, optimal on the selection.
    Model: Model_superpose (hand-written mirror of superpose.py; the rotation kernel is an oracle
    argument whose optimality is property C06). *)
-From Verif Require Import PyLib ModelTypes Model_many Model_store Model_superpose Spec_superpose Proofs_superpose.
+From Verif Require Import PyLib ModelTypes Model_many Model_store Model_superpose Spec_superpose Proofs_superpose Proofs_rigid_rmsd Proofs_superpose_opt.
 Open Scope Q_scope.
 
 (* every atom of the mobile structure undergoes the same map x |-> R x + t *)
@@ -24,6 +24,26 @@ Theorem C13_residual_is_kernel_residual : forall rmat pm pt,
   resid (superpose_selection rmat pm pt pm) pt == resid (map (mv rmat) (centred pm)) (centred pt).
 Proof. exact resid_after_superposition. Qed.
 Print Assumptions C13_residual_is_kernel_residual.
+
+(* centroid decomposition: the residual of ANY affine map x |-> r x + t on the paired atoms is the rotation's
+   residual on the centred sets plus n |r cP + t - cQ|^2 ... *)
+Theorem C13_residual_decomposition : forall r t P Qs, P <> [] -> List.length P = List.length Qs ->
+  resid (map (affine r t) P) Qs
+  == resid (map (mv r) (centred P)) (centred Qs)
+     + inject_Z (Z.of_nat (List.length P)) * norm2 (vsub (affine r t (mean P)) (mean Qs)).
+Proof. exact residual_decomposition. Qed.
+Print Assumptions C13_residual_decomposition.
+
+(* ... hence superpose's motion is optimal among ALL rigid motions (any rotation r', any translation t') on the
+   paired atoms exactly under the hypothesis that the kernel's rotation is optimal among rotations on the
+   centred sets, which is what C06 states about the kernel *)
+Theorem C13_optimal_over_rigid_motions : forall rmat P Qs, P <> [] -> List.length P = List.length Qs ->
+  (forall r', orthogonal r' ->
+     resid (map (mv rmat) (centred P)) (centred Qs) <= resid (map (mv r') (centred P)) (centred Qs)) ->
+  forall r' t', orthogonal r' ->
+    resid (superpose_selection rmat P Qs P) Qs <= resid (map (affine r' t') P) Qs.
+Proof. exact superpose_optimal_over_rigid_motions. Qed.
+Print Assumptions C13_optimal_over_rigid_motions.
 
 (* only the mobile structure's coordinates change: count, order and every other attribute stay *)
 Theorem C13_only_coordinates_change : forall rmat mobile sm st new,
